@@ -84,8 +84,9 @@ func (m *DBManager) GetUserDB(userID int64) (*sql.DB, error) {
 		return nil, fmt.Errorf("failed to enable foreign keys: %v", err)
 	}
 
-	// Initialize schema if this is a new database
-	if !exists {
+	// Initialize the schema unless it is known to be complete. That the file exists does not prove it: a crash, or
+	// another process creating the same database at this moment, leaves it partly initialized
+	if !exists || !userDBInitialized(db) {
 		if err := m.initUserDB(db, userID); err != nil {
 			_ = db.Close()
 			return nil, fmt.Errorf("failed to initialize user database: %v", err)
@@ -137,8 +138,8 @@ func (m *DBManager) GetRoleMailboxDB(roleMailboxID int64) (*sql.DB, error) {
 		return nil, fmt.Errorf("failed to enable foreign keys: %v", err)
 	}
 
-	// Initialize schema if this is a new database (use userID 0 for role mailbox)
-	if !exists {
+	// Initialize the schema unless it is known to be complete (use userID 0 for role mailbox)
+	if !exists || !userDBInitialized(db) {
 		if err := m.initUserDB(db, 0); err != nil {
 			_ = db.Close()
 			return nil, fmt.Errorf("failed to initialize role mailbox database: %v", err)
@@ -258,7 +259,19 @@ func (m *DBManager) initUserDB(db *sql.DB, userID int64) error {
 		return fmt.Errorf("failed to create default mailboxes: %v", err)
 	}
 
+	// Every step above can be repeated; this one records that all of them have been done
+	if _, err := db.Exec("PRAGMA user_version = 1"); err != nil {
+		return fmt.Errorf("failed to mark the database as initialized: %v", err)
+	}
+
 	return nil
+}
+
+// userDBInitialized reports whether initUserDB ran to completion on this database
+func userDBInitialized(db *sql.DB) bool {
+	var version int
+	err := db.QueryRow("PRAGMA user_version").Scan(&version)
+	return err == nil && version >= 1
 }
 
 // getUserDBPath returns the file path for a user's database
